@@ -126,10 +126,25 @@ where
                         }
                     }
                 }
-                let registers = registers.ok_or_else(|| de::Error::missing_field("registers"))?;
-                let b = b.ok_or_else(|| de::Error::missing_field("b"))?;
+                let registers: Vec<u8> =
+                    registers.ok_or_else(|| de::Error::missing_field("registers"))?;
+                let b: usize = b.ok_or_else(|| de::Error::missing_field("b"))?;
                 let buildhasher =
                     buildhasher.ok_or_else(|| de::Error::missing_field("buildhasher"))?;
+                // same invariants as `HyperLogLog::with_registers_and_hash`, but as an error instead of a panic
+                if !(4..=18).contains(&b) {
+                    return Err(de::Error::custom(format!(
+                        "b ({}) must be larger or equal than 4 and smaller or equal than 18",
+                        b
+                    )));
+                }
+                if registers.len() != (1_usize << b) {
+                    return Err(de::Error::custom(format!(
+                        "registers must have length of {}, but had {}",
+                        1_usize << b,
+                        registers.len()
+                    )));
+                }
                 Ok(HyperLogLog {
                     registers,
                     b,
